@@ -59,6 +59,11 @@ class Cfg:
         self.service = "cpt"        # cpt | wp
         self.token = 1001
         self.iam = False            # hand the peers' I-Am to each other's device info cache first
+        self.s_path = None          # path limit (DeviceInfo.maxNpduLength) the client recorded for the server; needs iam
+        self.c_path = None          # ... and the server for the client
+        self.followups = []         # requests submitted when the first one completes (IOCB path): [(how, behaviour, req_size, rsp_size)],
+                                    # how = 'deferred' (through core.deferred from the callback) | 'direct' (inside the callback)
+        self.background = []        # delays of unrelated one-shot timers installed between the first request and the further ones
         self.extra = []             # further requests submitted at the same instant: [(behaviour, service, req_size, rsp_size)]
         self.__dict__.update(kw)
 
@@ -104,6 +109,9 @@ def run_scenario(cfg, plan=None, extra_after=None, max_steps=400000):
         CLOCK.settle()
         if cfg.iam:
             exchange_iam(client, server)
+            for owner, peer, limit in ((client, server, cfg.s_path), (server, client, cfg.c_path)):
+                if limit is not None:
+                    owner.app.deviceInfoCache.get_device_info(peer.address).maxNpduLength = limit
         lan.frames_before = len(lan.frames)
         t0 = CLOCK.now
         if cfg.service == "cpt":
@@ -118,6 +126,12 @@ def run_scenario(cfg, plan=None, extra_after=None, max_steps=400000):
         res.invoke = getattr(req, "apduInvokeID", None)
         res.t0 = t0
         res.extra_tokens = []
+        res.background = []
+        for d in cfg.background:
+            from bacpypes.task import FunctionTask
+            bt = FunctionTask(lambda: None)
+            bt.install_task(delta=d)
+            res.background.append(bt)
         for k, (beh, svc, rq, rp) in enumerate(cfg.extra):
             tok = cfg.token + 1 + k
             server.app.behaviour[tok] = (beh, rp, 0.0)
@@ -127,8 +141,22 @@ def run_scenario(cfg, plan=None, extra_after=None, max_steps=400000):
                 res.extra_tokens.append(tok)
             except Exception as err:
                 res.submit_error = err
+        if cfg.followups and cfg.path == "iocb" and res.iocb is not None:
+            from bacpypes.core import deferred
+
+            def follow(iocb, res=res):
+                for k, (how, beh, rq, rp) in enumerate(cfg.followups):
+                    tok = cfg.token + 100 + k
+                    server.app.behaviour[tok] = (beh, rp, 0.0)
+                    r2 = client.cpt_request(2, tok, rq)
+                    res.extra_tokens.append(tok)
+                    if how == "deferred":
+                        deferred(client.send, r2, tok)
+                    else:
+                        client.send(r2, tok)
+            res.iocb.add_callback(follow)
         injected = sum(a[1] for a in (plan.table.values() if plan else []) if isinstance(a, tuple) and a[0] == DELAY)
-        bound = cfg.bound(injected) * (1 + len(cfg.extra))
+        bound = cfg.bound(injected) * (1 + len(cfg.extra) + len(cfg.followups))
         res.bound = bound
         CLOCK.drive(until=t0 + bound, max_steps=max_steps)
         res.t_bound_end = CLOCK.now
@@ -138,6 +166,9 @@ def run_scenario(cfg, plan=None, extra_after=None, max_steps=400000):
         CLOCK.drive(duration=bound, max_steps=max_steps)
     except StepBudgetExceeded as err:
         res.budget_exceeded = str(err)
+    for bt in getattr(res, "background", []):
+        if bt.isScheduled:
+            bt.suspend_task()
     if lan.overflow:
         res.budget_exceeded = "more than %d frames for one transaction" % lan.frame_cap
     return res
@@ -191,6 +222,11 @@ def check_c04(res, report):
         toks = sorted(o.get("token") for o in outs)
         if toks != sorted([cfg.token] + res.extra_tokens):
             report("outcome-delivered-more-than-once", {"tokens": toks})
+            return
+    if cfg.path == "iocb":
+        crossed = [(o.get("token"), o.get("answer_token")) for o in outs if o.get("answer_token") is not None and o.get("answer_token") != o.get("token")]
+        if crossed:
+            report("request-completed-with-the-answer-to-another-request", {"request_and_answer_tokens": crossed})
             return
     o = outs[-1]
     t_out = o["t"]
